@@ -970,6 +970,30 @@ Definition lower (d : decls) : rsys :=
 Definition eval_if_decls (fuel : nat) (d : decls) (rho : list ty) (hs : list hyp) (g : goal) : option bool :=
   eval_if fuel (lower d) rho hs g.
 
+(** Hypotheses do not reach a conjunct outside their [if] — in either order of the conjuncts:
+    the oracle for [(if (H) { G1 }), G2] and [G2, (if (H) { G1 })] evaluates [G2] WITHOUT [H]. *)
+Definition eval_if_and (fuel : nat) (s : rsys) (rho : list ty) (hs : list hyp) (g1 g2 : goal) : option bool :=
+  and3 (eval_if fuel s rho hs g1) (eval_if fuel s rho [] g2).
+
+Theorem sat_if_and_exact : forall fuel s rho hs g1 g2 b,
+  eval_if_and fuel s rho hs g1 g2 = Some b ->
+  (b = true <-> sat (full_program s) [] rho (GAnd (GIf hs g1) g2)) /\
+  (b = true <-> sat (full_program s) [] rho (GAnd g2 (GIf hs g1))).
+Proof.
+  intros fuel s rho hs g1 g2 b H. unfold eval_if_and in H.
+  assert (K : b = true <-> sat (full_program s) [] rho (GIf hs g1) /\ sat (full_program s) [] rho (GIf [] g2)).
+  { destruct (eval_if fuel s rho hs g1) as [b1|] eqn:E1; destruct (eval_if fuel s rho [] g2) as [b2|] eqn:E2.
+    - pose proof (sat_if_exact _ _ _ _ _ _ E1) as X1. pose proof (sat_if_exact _ _ _ _ _ _ E2) as X2.
+      destruct b1, b2; cbn [and3] in H; inversion H; subst; intuition congruence.
+    - pose proof (sat_if_exact _ _ _ _ _ _ E1) as X1. destruct b1; cbn [and3] in H; inversion H; subst. intuition congruence.
+    - pose proof (sat_if_exact _ _ _ _ _ _ E2) as X2. destruct b2; cbn [and3] in H; inversion H; subst. intuition congruence.
+    - discriminate. }
+  cbn [sat map app] in *. tauto.
+Qed.
+
+Definition eval_if_and_decls (fuel : nat) (d : decls) (rho : list ty) (hs : list hyp) (g1 g2 : goal) : option bool :=
+  eval_if_and fuel (lower d) rho hs g1 g2.
+
 (** What the elaboration collects, for the correspondence with the real
     [program_clauses_for_env]: the FromEnv atoms of the closure. *)
 Definition elab_atoms (fuel : nat) (d : decls) (hs : list clause) : option (list ty) :=
